@@ -20,7 +20,7 @@ from sa import report  # noqa: E402
 ALL = ['C%02d' % i for i in range(1, 21)]
 
 
-def run_property(pid, repo_path, tier, replay=None, write_evidence=True, out=sys.stdout):
+def run_property(pid, repo_path, tier, replay=None, write_evidence=True, out=sys.stdout, notes=None):
     try:
         mod = importlib.import_module('sa.props.%s' % pid.lower())
     except ImportError as e:
@@ -32,6 +32,8 @@ def run_property(pid, repo_path, tier, replay=None, write_evidence=True, out=sys
         out.write('ANALYSIS-ERROR property=%s rule=- reason=%s\n' % (pid, e.reason))
         return 2
     check = report.Check(pid, repo, tier=tier, explanation=mod.EXPLANATION, assumptions=mod.ASSUMPTIONS)
+    if notes:
+        check.notes.append(notes)
     try:
         mod.run(check)
     except Inconclusive as e:
@@ -62,17 +64,22 @@ def main(argv=None):
         for p in ALL:
             worst = max(worst, run_property(p, a.repo, a.tier, write_evidence=not a.no_evidence))
         return worst
-    code = run_property(pid, a.repo, a.tier, replay=a.replay, write_evidence=not a.no_evidence)
-    if a.tier == 'thorough' and not a.replay and not a.no_selftest and code != 1:
-        try:
+    if a.tier == 'thorough' and not a.replay and not a.no_selftest:
+        # thorough: the same decision with the deepest settings, plus the checker's own validation on scratch copies
+        # (self-test corpora and the stored independent seeds); the validation is recorded in the evidence and a
+        # failure of it makes the run inconclusive (exit 2), never a VIOLATION of /repo
+        import io
+        probe = run_property(pid, a.repo, a.tier, write_evidence=False, out=io.StringIO())
+        sc, notes = 0, {}
+        if probe != 1:
             from sa import selftest
-        except ImportError:
-            selftest = None
-        if selftest is not None:
             sc = selftest.run_for_property(pid, a.repo)
-            if sc != 0 and code == 0:
-                code = 2
-    return code
+            notes = {'self_validation': dict(selftest.LAST)}
+        code = run_property(pid, a.repo, a.tier, write_evidence=not a.no_evidence, notes=notes)
+        if sc != 0 and code == 0:
+            code = 2
+        return code
+    return run_property(pid, a.repo, a.tier, replay=a.replay, write_evidence=not a.no_evidence)
 
 
 if __name__ == '__main__':
